@@ -61,6 +61,16 @@ def takeNats : Tape → Except Err (List Nat × Tape)
   | .nats l :: t => .ok (l, t)
   | _ => .error .miss
 
+/-- `ske.Encrypt(key, msg)` with its draw: the wrapper checks the message and key lengths BEFORE it calls
+    `os.urandom(16)`, so a refused call consumes nothing from the tape -/
+def skeEncrypt (ske : AESxCBC) (lv : Leaves) (key msg : Bytes) (t : Tape) : Except Err (Bytes × Tape) :=
+  match ske.encrypt lv.E key (zeros 16) msg with
+  | .error e => .error e
+  | .ok _ => do
+    let (iv, t1) ← takeBytes 16 t
+    let c ← ske.encrypt lv.E key iv msg
+    pure (c, t1)
+
 /-! ### tables -/
 
 /-- Python's `bytes` ordering: lexicographic, a proper prefix is smaller -/
